@@ -10,10 +10,10 @@
 #include <stdarg.h>
 #include "hcommon.h"
 
-enum { PG_SPAWN, PG_ATTR, PG_DETACH, PG_MUTEX_STATIC, PG_COND, PG_BARRIER, PG_SPIN, PG_ONCE, PG_KEYS, PG_SELF, PG_EXIT, PG_MIX, PG_KEYS_ALL, PG_TRYLOCK, PG_RETCODES, PG_N };
+enum { PG_SPAWN, PG_ATTR, PG_DETACH, PG_MUTEX_STATIC, PG_COND, PG_BARRIER, PG_SPIN, PG_ONCE, PG_KEYS, PG_SELF, PG_EXIT, PG_MIX, PG_KEYS_ALL, PG_TRYLOCK, PG_RETCODES, PG_KEYS_MANY, PG_N };
 static const char * const pg_name[] = { "spawn tree (NULL attr)", "spawn with attribute objects (default-init, stack size)", "detached threads (attribute and pthread_detach)",
   "counter under a PTHREAD_MUTEX_INITIALIZER mutex first used by all threads at once", "condition-variable hand-off (static initialisers)", "barrier phases",
-  "spin-lock counter", "pthread_once", "keys with destructors", "pthread_self / pthread_equal", "pthread_exit from nested frames", "mixed: keys + mutex + yield + usleep(0)", "keys with destructors, every thread stores a value under every key", "trylock / timedlock on a mutex held by the creator", "return codes of init/destroy/attr/yield/sleep calls" };
+  "spin-lock counter", "pthread_once", "keys with destructors", "pthread_self / pthread_equal", "pthread_exit from nested frames", "mixed: keys + mutex + yield + usleep(0)", "keys with destructors, every thread stores a value under every key", "trylock / timedlock on a mutex held by the creator", "return codes of init/destroy/attr/yield/sleep calls", "18 keys without destructors: a thread reads NULL under every key it has not stored under, also after storing under the neighbouring keys (4 threads one after the other, then concurrent ones)" };
 typedef struct { int pg, n, W, K; } prog_t;
 #define MAXP 200
 static prog_t P[2][MAXP]; static int NP[2];
@@ -72,6 +72,18 @@ static void * t_keys(void * a) {
   sched_yield();
   return (void *)((long)pthread_getspecific(key1) + (long)pthread_getspecific(key2));
 }
+enum { NMANY = 18 };
+static pthread_key_t many[NMANY];
+static void * t_many(void * a) {
+  long me = (long)a, par = me & 1, stale = 0, sum = 0;
+  /* store under every second key first: a thread that never stored under the others must still read NULL there */
+  for (int j = 0; j < NMANY; j++) if ((j & 1) == par) pthread_setspecific(many[j], (void *)((j + 1) * (me + 1) * 1000L));
+  for (int j = 0; j < NMANY; j++) if ((j & 1) != par && pthread_getspecific(many[j]) != NULL) stale |= 1L << j;
+  for (int j = 0; j < NMANY; j++) if ((j & 1) != par) pthread_setspecific(many[j], (void *)((j + 1) * (me + 1) * 1000L));
+  sched_yield();
+  for (int j = 0; j < NMANY; j++) sum += (long)pthread_getspecific(many[j]);
+  return (void *)(stale ? -stale : sum);
+}
 static void * t_self(void * a) { long me = (long)a; pthread_t s = pthread_self(); sched_yield(); self_ok[me] = pthread_equal(s, pthread_self()) ? 1 : 0; return (void *)(long)(pthread_equal(pthread_self(), pthread_self()) != 0); }
 static void __attribute__((noinline)) deep_exit(long v, int d) { volatile char pad[32]; pad[0] = (char)d; if (d == 0) pthread_exit((void *)v); deep_exit(v, d - 1); (void)pad; }
 static void * t_exit(void * a) { deep_exit((long)a + 70, 3); return (void *)-1L; }
@@ -118,6 +130,11 @@ static void program(int pg, int n, char * log, size_t logn) {
     for (long i = 0; i < n; i++) pthread_create(&th[i], NULL, t_try, (void *)i); for (int i = 0; i < n; i++) { pthread_join(th[i], &r); logf_("try%d=%ld;", i, (long)r); }
     { int u = pthread_mutex_unlock(&dm); int t = pthread_mutex_trylock(&dm); int u2 = pthread_mutex_unlock(&dm); logf_("unlock=%d;trylock_free=%d;unlock2=%d;", u, t, u2); }
     logf_("destroy=%d;", pthread_mutex_destroy(&dm)); break;
+  case PG_KEYS_MANY: { int kc = 0; for (int j = 0; j < NMANY; j++) kc += pthread_key_create(&many[j], NULL);
+    for (long q = 0; q < 4; q++) { pthread_create(&th[0], NULL, t_many, (void *)q); pthread_join(th[0], &r); logf_("q%ld=%ld;", q, (long)r); }   /* one after the other: records are re-used */
+    for (long i = 1; i < n; i++) pthread_create(&th[i], NULL, t_many, (void *)(i + 3)); for (int i = 1; i < n; i++) { pthread_join(th[i], &r); logf_("m%d=%ld;", i, (long)r); }
+    { long mainstale = 0; for (int j = 0; j < NMANY; j++) if (pthread_getspecific(many[j]) != NULL) mainstale++; logf_("kc=%d;main_stale=%ld;", kc, mainstale); }
+    for (int j = 0; j < NMANY; j++) pthread_key_delete(many[j]); break; }
   case PG_RETCODES: {
     pthread_attr_t a; size_t ss = 0; int ds = -1; pthread_cond_t c; pthread_barrier_t b; pthread_key_t k; pthread_spinlock_t sp; pthread_mutexattr_t ma; int ty = -1;
     logf_("ai=%d;", pthread_attr_init(&a)); logf_("ass=%d;", pthread_attr_setstacksize(&a, 262144)); { int q = pthread_attr_getstacksize(&a, &ss); logf_("ags=%d/%zu;", q, ss); }
